@@ -17,7 +17,8 @@
    The model has one description of the code per [variant]: [fixed] is the code after the "fix:" commits
    (Commit unlocks compCommitLk when it gives up; Write discards its internal transaction when Commit
    fails; OpenTransaction releases the write lock on its error paths; a failed manifest write makes the
-   next commit start a fresh manifest; SetReadOnly hands the write lock over explicitly); switching one
+   next commit start a fresh manifest; SetReadOnly hands the write lock over explicitly; OpenTransaction does not
+   return a transaction on a DB whose closeC was closed before db.tr was published); switching one
    flag off gives the code before that repair (used by the ..._leaks_refuted examples).
 
    Model file: definitions only (proofs in Conc/LocksProofs.v).
@@ -35,9 +36,11 @@ Record variant := {
   fixD4b : bool;  (* DB.Write discards its transaction when Commit fails *)
   fixD4c : bool;  (* OpenTransaction releases the write lock on its error paths *)
   fixD7  : bool;  (* a failed manifest write does not poison later commits *)
-  fixD8  : bool   (* SetReadOnly: explicit hand-over of the write lock to compactionError *)
+  fixD8  : bool;  (* SetReadOnly: explicit hand-over of the write lock to compactionError *)
+  fixD9  : bool   (* OpenTransaction gives the transaction up itself when closeC was closed before db.tr was published *)
 }.
-Definition fixed : variant := {| fixD4a := true; fixD4b := true; fixD4c := true; fixD7 := true; fixD8 := true |}.
+Definition fixed : variant :=
+  {| fixD4a := true; fixD4b := true; fixD4c := true; fixD7 := true; fixD8 := true; fixD9 := true |}.
 
 (* ---------------------------------------------------------------- program counters *)
 
@@ -67,6 +70,9 @@ Inductive cpc :=
 (* OpenTransaction *)
 | OT0 (x : ctx) | OT1 (x : ctx) | OT2 (x : ctx) | OT3 (x : ctx) | OT4 (x : ctx) | OT5 (x : ctx)
 | OTE (x : ctx) | OTfail (x : ctx)
+(* OpenTransaction after db.tr = tr: select on closeC / default; on closeC: tr.lk.Lock, if !tr.closed {discard; setDone},
+   tr.lk.Unlock, return ErrClosed *)
+| OT4b (x : ctx) | OT6 (x : ctx) | OT7 (x : ctx) | OT7d (x : ctx) | OT8 (x : ctx)
 (* DB.Write, large batch: tr.Write, then Commit or Discard *)
 | LB1 | LB2 | LB3 (ok : bool) | LB4 | LB5
 (* Transaction.Commit *)
@@ -140,7 +146,8 @@ Inductive lbl :=
 | LAck (ok : bool)              (* x.ack(nil) / x.ack(ErrClosed) for the current command (no-op if none) *)
 | LEnqueue                      (* tCompaction: waitQ = append(waitQ, x) *)
 | LAckQ (ok : bool)             (* tCompaction: ack the first entry of waitQ *)
-| LQEmpty.                      (* tCompaction: waitQ is empty *)
+| LQEmpty                       (* tCompaction: waitQ is empty *)
+| LOpenC.                       (* the default case of a select on closeC: closeC is not closed *)
 
 (* ---------------------------------------------------------------- control-flow graphs *)
 
@@ -205,7 +212,12 @@ Definition cedges (v : variant) (pc : cpc) : list (lbl * cpc) :=
   | OT1 x => [ (LAcqW, OT2 x); (LRecvPerr, OTfail x); (LSeeClosed, OTfail x) ]
   | OT2 x => [ (LTau, TrigS BM (SRot0 (ROt x))); (LTau, TrigS BM (SOtFrozen x)); (LTau, OT3 x) ]
   | OT3 x => [ (LTau, TrigS BT (SOtWc x)); (LTau, OT4 x) ]
-  | OT4 x => [ (LWToTr, OT5 x) ]
+  | OT4 x => [ (LWToTr, if fixD9 v then OT4b x else OT5 x) ]
+  | OT4b x => [ (LSeeClosed, OT6 x); (LOpenC, OT5 x) ]
+  | OT6 x => [ (LLockT, OT7 x) ]
+  | OT7 x => [ (LIfTrOpen true, OT7d x); (LIfTrOpen false, OT8 x) ]
+  | OT7d x => [ (LRelWTr, OT8 x) ]
+  | OT8 x => [ (LUnlockT, OTfail x) ]
   | OT5 x => [ (LEnd, after_ot_ok x) ]
   | OTE x => if fixD4c v then [ (LRelW, OTfail x) ] else [ (LTau, OTfail x) ]
   | OTfail x => [ (LEnd, after_ot_fail x) ]
@@ -535,6 +547,7 @@ Definition lsem (v : variant) (p : who) (l : lbl) (arg : nat) (s : state) : opti
   | LEnqueue => match tx s with Some w => Some (set_tx (set_tq s (tq s ++ [w])) None) | None => None end
   | LAckQ ok => match tq s with w :: rest => Some (set_tq (deliver BT ok w s) rest) | [] => None end
   | LQEmpty => guard (is_nil (tq s)) s
+  | LOpenC => guard (negb (closeC s)) s
   end.
 
 (* ---------------------------------------------------------------- the transition system *)
@@ -631,6 +644,7 @@ Definition cTl (pc : cpc) : bool :=
   | CM2 _ | CM3 _ | CM4 _ | CM5 _ _ | CM6 _ _ | CM6c _ | CM5f _ | CM7 _ | CM8 _ | CM8b _ | CM9 _ | CM10 _ | CMFu _ => true
   | TrigS _ (SCmWc _) | TrigW _ (SCmWc _) => true
   | DC1 _ | DC2 _ | DC3 _ => true
+  | OT7 _ | OT7d _ | OT8 _ => true
   | TP2 | TP3 => true
   | _ => false
   end.
